@@ -27,6 +27,8 @@ CARDS = {
     "multi.vcf": card("k3", ["FN:Multi Mail", "N:Mail;Multi;;;", "EMAIL;TYPE=WORK:work@example.com", "EMAIL;TYPE=HOME:home@example.org"]),
     "bare.vcf": card("k4", ["FN:Bare", "N:Bare;;;;"]),
     "johnson.vcf": card("k6", ["FN:Johnson", "N:Johnson;;;;", "EMAIL: spaced@example.net "]),
+    # every EMAIL / TEL of this card carries a group prefix (what address book applications write for custom labels)
+    "grouped.vcf": card("k7", ["FN:Grouped Person", "N:Person;Grouped;;;", "item1.EMAIL;TYPE=INTERNET:grouped@example.com", "item1.X-ABLabel:Other", "item2.TEL;TYPE=VOICE:+1 555 0199"]),
     "upper.vcf": card("k5", ["FN:JOHN DOE", "N:DOE;JOHN;;;", "EMAIL:JOHN@EXAMPLE.COM", "NICKNAME:日本"]),
 }
 
